@@ -191,7 +191,7 @@ def binding_selftest(files, scd):
         for line in open(src[0]):
             ev = json.loads(line)
             if not done and ev.get("ev") == "batch" and ev["kind"] == "range":
-                it = ev["items"][1]
+                it = [x for x in ev["items"] if x["ev"] == "range" and x["len"] > 0 and not 0xD800 <= x["lo"] <= 0xDFFF][0]
                 it["bhi"][-1] ^= 1
                 done = True
             if ev.get("ev") == "batch" and ev["kind"] != "range":
